@@ -17,7 +17,7 @@ func init() {
 		Explanation: "(1) the assigned-partition and committed-only lag computations of CalculateGroupLagWithStartOffsets are statement-for-statement identical (the code declares them duplicates); " +
 			"(2) in both: perr starts as errListMissing and is cleared only when the partition is found in the end listing, then takes the commit error, then the end-offset error; the commit looked up for the partition is used whenever it is present (no extra condition); every store to lag other than the -1 initialisation is under perr == nil; lag is the end offset, overridden by end-start when the start offset has no error and by end-commit when something is committed (commit last), floored at zero; the result literal stores Lag: lag and Err: perr together with the commit, start and end used; " +
 			"(3) each result is stored at l[topic][partition]; the committed-only block skips partitions already present; CalculateGroupLag delegates to the start-offset variant; " +
-			"(4) TotalByTopic adds only positive lags and Total is the sum of TotalByTopic (so the -1 error markers never enter a total); " +
+			"(4) TotalByTopic adds only positive lags, under no other condition and over the whole maps without early exits, and Total is the sum of TotalByTopic (so the -1 error markers never enter a total and no valid lag is left out); " +
 			"(5) round 3: every As*/Raw accessor of the `struct{ i any }` wrappers (GroupMemberAssignment, GroupMemberMetadata) returns the value and ok of one comma-ok type assertion on the wrapped value to the accessor's result type, ok/value are never rewritten, a constant true/false result is only returned under the matching ok fact (so ok depends on the dynamic type alone, never on Version or another decoded field); " +
 			"(6) round 3: in CalculateGroupLagWithStartOffsets the assigned result store is guarded by nothing but ok of m.Assigned.AsConsumer() on the member of `range group.Members`, sits in `range c.Topics { range t.Partitions` over the unsliced lists, no break/return/labelled or inner continue leaves those loops and a member is skipped only under !ok, the result carries Member: &group.Members[mi], Topic: t.Topic, Partition: p and is stored at l[t.Topic][p] (a fresh per-topic map is published in l).",
 		NotDecided: "arithmetic on actual offsets over all inputs; the third (listed-only) block, which is outside the statement; that DescribeGroups wraps a *kmsg.ConsumerMemberAssignment for every member of a \"consumer\" group (decoding side); accessors written as a type switch are reported undecided.",
